@@ -93,13 +93,19 @@ def run (spec : Bool) (toks : List String) : String :=
   match parseDirs (hd.drop 1) with
   | none => "bad-case"
   | some ds =>
-    let e := mkEnv (hd.head? == some "A") ds
-    let rec go (s : Sp) (acc : List String) : List (List String) → String
+    let viaAdd := hd.head? == some "A"
+    -- `ad D …`: a directive added to the running filter (`add_directive` on the value in place, behind a reload handle): the
+    -- tables change, the matchers of the spans that exist and the levels already raised on the thread stay
+    let rec go (ds : List DDir) (s : Sp) (acc : List String) : List (List String) → String
       | [] => " ".intercalate acc.reverse
-      | o :: os => match stepOp spec e s o with
-        | some (s', out) => go s' (out :: acc) os
+      | ("ad" :: d) :: os =>
+        match viaAdd, parseDirs d with
+        | true, some [d1] => go (ds ++ [d1]) s ("-" :: acc) os
+        | _, _ => "bad-op"
+      | o :: os => match stepOp spec (mkEnv viaAdd ds) s o with
+        | some (s', out) => go ds s' (out :: acc) os
         | none => "bad-op"
-    go { st := St.init, entered := [] } [] (TM.RegistryDriver.splitOn ops ";")
+    go ds { st := St.init, entered := [] } [] (TM.RegistryDriver.splitOn ops ";")
 
 def model (toks : List String) : String := run false toks
 def spec (toks : List String) : String := run true toks
